@@ -39,7 +39,7 @@ def parse(ctx, n, project=None, texts=None, label='parse'):
 from tools.layers import load as L_load, dump as L_dump, emit as L_emit, reader as L_reader
 from tools import values, events
 
-LOAD_SCALARS = ['1','-1_0','0x1F','0b1_0','017','0','+12','1:30','190:20:30','1.5','-.5','1e3','1.0e+3','6.8523015e+5','685.230_15e+03','685_230.15','190:20:30.15','.inf','-.INF','.NaN','0.1','1e-400','1.7976931348623157e+308','1e400','4.9e-324','2.5e-324','0x_','0b_','09','1__','1._','yes','No','TRUE','off','~','null','','<<','=','2001-12-14','2001-12-14t21:59:43.10-05:00','2001-12-14 21:59:43.10 -5','2001-12-15 2:59:43.10','2002-12-14','2001-13-01','2001-1-1','2001-02-29','2004-02-29 00:00:00Z','2001-01-01 25:00:00','2001-01-01T1:00:00+25','2001-01-01 1:00:00.123456789+01:30','abc','a b','!!int abc','!!int ""','!!int " 12 "','!!int 0x0x1','!!int "-0b-1"','!!float x','!!float 1e5','!!float nan','!!float " 1.5 "','!!bool maybe','!!bool YES','!!timestamp x','!!timestamp 2001-1-1','!!binary "YQ=="','!!binary "YQ"','!!binary "YW Jj\\nZA=="','!!binary "YQ==YQ=="','!!binary "=YQ=="','!!binary "Y=Q=="','!!binary é','!!str 12','!!null x','!!seq [a]','!!map {a: b}','!!set {a, b, a}','!!omap [a: 1, b: 2]','!!pairs [a: 1, a: 2]','!!omap [a]','!!set [a]','!!foo x','!!python/object:os.system x','! "yes\\n"','!!str {=: v}','!!int {=: 7}','!!timestamp {=: 2001-01-01}','&a [*a]','&a {k: *a}','[&x [1], *x, *x]','{1: a, 1.0: b, true: c}','{.nan: 1, .NaN: 2}','{a: 1, <<: {a: 2, b: 3}}','{<<: [{a: 1}, {a: 2, c: 3}], <<: {c: 4}}','? [a]\n: b','&a {*a : b}','&m {<<: *m, x: 1}']
+LOAD_SCALARS = ['-1:30.5','-190:20:30.15','-0:30.5','-1:30','-0x1F','-017','1','-1_0','0x1F','0b1_0','017','0','+12','1:30','190:20:30','1.5','-.5','1e3','1.0e+3','6.8523015e+5','685.230_15e+03','685_230.15','190:20:30.15','.inf','-.INF','.NaN','0.1','1e-400','1.7976931348623157e+308','1e400','4.9e-324','2.5e-324','0x_','0b_','09','1__','1._','yes','No','TRUE','off','~','null','','<<','=','2001-12-14','2001-12-14t21:59:43.10-05:00','2001-12-14 21:59:43.10 -5','2001-12-15 2:59:43.10','2002-12-14','2001-13-01','2001-1-1','2001-02-29','2004-02-29 00:00:00Z','2001-01-01 25:00:00','2001-01-01T1:00:00+25','2001-01-01 1:00:00.123456789+01:30','abc','a b','!!int abc','!!int ""','!!int " 12 "','!!int 0x0x1','!!int "-0b-1"','!!float x','!!float 1e5','!!float nan','!!float " 1.5 "','!!bool maybe','!!bool YES','!!timestamp x','!!timestamp 2001-1-1','!!binary "YQ=="','!!binary "YQ"','!!binary "YW Jj\\nZA=="','!!binary "YQ==YQ=="','!!binary "=YQ=="','!!binary "Y=Q=="','!!binary é','!!str 12','!!null x','!!seq [a]','!!map {a: b}','!!set {a, b, a}','!!omap [a: 1, b: 2]','!!pairs [a: 1, a: 2]','!!omap [a]','!!set [a]','!!foo x','!!python/object:os.system x','! "yes\\n"','!!str {=: v}','!!int {=: 7}','!!timestamp {=: 2001-01-01}','&a [*a]','&a {k: *a}','[&x [1], *x, *x]','{1: a, 1.0: b, true: c}','{.nan: 1, .NaN: 2}','{a: 1, <<: {a: 2, b: 3}}','{<<: [{a: 1}, {a: 2, c: 3}], <<: {c: 4}}','? [a]\n: b','&a {*a : b}','&m {<<: *m, x: 1}']
 LOAD_ALPHA = list(" \n-:[]{},#&*!|>'\"a0.1_+e<=~x")
 
 def load_texts(ctx, n):
@@ -129,7 +129,7 @@ def reader(ctx, n, project=None, cases=None, label='reader'):
 import itertools
 from tools import spec11
 RES_ALPHA = list("0123456789+-_.:eExbonyYNtTfFlLuUsSaAiI~<= \tZ\n!&*OrR")
-RES_SEEDS = ['yes','No','TRUE','off','1.5','-1_0.5e+10','.5','1:30:00.5','+.inf','.NaN','0b1_01','0o7','017','0','-12_3','0xFf_','190:20:30','<<','~','null','','2001-12-14',
+RES_SEEDS = ['-1:30.5','-190:20:30.15','+1:30.5','-0:30.5','-2:3:4.5','-1:05.','-1:30','-0x1F','-0b101','-017','-1e3','-1.5e+10','-.5','yes','No','TRUE','off','1.5','-1_0.5e+10','.5','1:30:00.5','+.inf','.NaN','0b1_01','0o7','017','0','-12_3','0xFf_','190:20:30','<<','~','null','','2001-12-14',
              '2001-12-14t21:59:43.10-05:00','2001-12-14 21:59:43.10 -5','2001-1-1 1:00:00Z','=','!','&','*','0x_','0b_','-0x_','1e5','1.e+5','1_0:5_9','-.inf','2001-12-14T21:59:43Z','2001-12-14 21:59:43 +5:30','2001-13-01','2001-02-30','2001-01-01 25:00:00','2001-01-01 1:00:00+25','2001-01-01 00:61:00','2001-00-01']
 def resolve_strings(ctx, maxlen, n_random, n_mut):
     rng = ctx.rng
